@@ -90,7 +90,7 @@ CHECKS['C18'] = dict(
 )
 
 from checks_py import stream_families, cached_binary
-HOOK_COMMITS.append('7573bac2')
+HOOK_COMMITS.append('7573bac2'); HOOK_COMMITS.append('be5b62f7')
 
 _PROG_RULE = ('fonts enumerated by gen/progenum.py and filtered by the REAL loader: (action) every action program of <=3 atoms (quick) / <=4 atoms + 5 structural atoms (thorough) over a 26-atom alphabet '
               '{NEXT, PUT_GLYPH x|y, PUT_SUBS -1|0|+1, PUT_COPY -1|0|+1, INSERT, DELETE, ASSOC, attach.to -2..2, ATTR_SET adv/shift/att/insert, IATTR_SET user, SET_FEAT, slot/glyph-attr readers} x 6 terminators '
@@ -235,9 +235,10 @@ CHECKS['C17'] = dict(
          '(end to end) every ShiftCollider::resolve performed while shaping (hooks in Pass::resolveCollisions): Awami_test, Awami_compressed_test, AwamiNastaliq-Regular x awami corpus lines/words (250 quick / all thorough) x dir {1,3}, and S-full / S-full RTL / S-full without sub-boxes x all strings of length 1..4 (thorough 1..5) containing a mark over 7 characters x dir {0,1}: '
          'limit clause (accumulated offset + new shift inside a well-formed limit rectangle when it started inside), verdict clause (isCol false => the target bounding octabox at its new placement is separated, on one of the four octagon axes, from the octabox or every sub-octabox of each merged non-ignored neighbour; tolerance 0.05), Zones invariants of the four axis ranges. LTR glyphs with x-asymmetric limits are outside the property (DESIGN 7.1). '
          '(collider_lattice) a real ShiftCollider on a real segment: target glyph at the origin, ONE neighbour on a 21x21 (thorough 31x31) lattice of origins spanning both glyph extents, x (target, neighbour) from 5 (thorough 8) octabox-bearing glyphs of Awami_test and of S-full (with and without sub-boxes) x 5 limit rectangles (incl. zero-area) x margin {0,20} x 6 accumulated offsets x 2 current shifts x dir {LTR,RTL} x isAfter {0,1}: initSlot, mergeSlot, resolve, then the same three clauses. '
+         '(kern_lattice) a real KernCollider driven as Pass::resolveKern drives it (initSlot, mergeSlot, resolve, shift): same glyphs, ONE neighbour on the 21x21 (thorough 31x31) lattice x 5 limits x margin {0,20} x previous kern offset {0,30,-30,200} x space {0,50} x dir: kern finite and horizontal, previous offset + kern inside the x range of a well-formed limit; the end-to-end runs observe every KernCollider::resolve through a hook with the same oracle. '
          '(collider_lattice2) TWO neighbours, each on its own 7x7 (thorough 9x9) lattice, the full product of both lattices, x glyph triples from 4 (thorough 5) glyphs x 4 limits x margin x 3 offsets x 2 shifts x dir x isAfter bits per neighbour. distinct = reachable free-cell patterns / distinct segments / (glyphs, limit) classes',
     level_text='Exhaustive operation-sequence enumeration on the real interval set against a lattice reference model, plus observation of every collision-resolution step of bounded shaping runs through guarded hooks with an independent octagon-geometry oracle.',
-    level_note='Trusted: unit-cell model and cost-coefficient formulas (Exclusion::weighted is reused for the arithmetic only), separating-axis oracle, hooks. Continuous geometry is explored on the arrangements that the corpora and the synthesised strings produce and on finite lattices of neighbour origins for one and two neighbours (k <= 2); the KernCollider is not covered.',
+    level_note='Trusted: unit-cell model and cost-coefficient formulas (Exclusion::weighted is reused for the arithmetic only), separating-axis oracle, hooks. Continuous geometry is explored on the arrangements that the corpora and the synthesised strings produce and on finite lattices of neighbour origins for one and two neighbours (k <= 2); for the KernCollider only the limit clause is checked (it has no resolved verdict).',
     technique='exhaustive bounded operation-sequence enumeration on the real code vs reference model; invariant observation of every fixing step through hooks',
     assumptions=['verdict clause is evaluated against the neighbours the engine merged (hook), not against all glyphs'],
 )
